@@ -1,7 +1,7 @@
 (** C13 — automata conversions and combinators compute the intended regular languages.
     Statements only; proofs live in C13/Proofs*.v. *)
 From Coq Require Import ZArith List Bool.
-From Algo.C13 Require Import Model Spec Lemmas ProofsNFA ProofsDFA ProofsSM ProofsUnion ProofsStar.
+From Algo.C13 Require Import Model Spec Lemmas ProofsNFA ProofsDFA ProofsSM ProofsUnion ProofsStar ProofsSubset ProofsSubsetTerm ProofsElim.
 Import ListNotations.
 Open Scope Z_scope.
 
@@ -36,6 +36,21 @@ Proof. exact dclone_accept. Qed.
 Theorem C13_tonfa : forall (d : dfa) (w : list Z), dwf d -> dfa_ok d -> dfa_noeps d -> word_ok w ->
   naccept (tonfa d) w = Ok (daccept d w).
 Proof. exact tonfa_accept. Qed.
+
+(** ToDFA (subset construction) terminates on every NFA, and the DFA accepts w iff the NFA does;
+    the result is again in the domain of the DFA theorems. *)
+Theorem C13_todfa : forall (n : nfa),
+  exists D, todfa n = Ok D /\ dfa_ok D /\ dwf D /\ dfa_noeps D /\
+            forall w, word_ok w -> naccept n w = Ok (daccept D w).
+Proof. exact todfa_total_accept. Qed.
+
+(** EliminateDeadStates terminates and accepts w iff the original does; the result stays in the
+    domain and only drops transitions. *)
+Theorem C13_eliminate_dead_states : forall (d : dfa), dwf d -> dfa_ok d ->
+  exists r, elim_dead d = Ok r /\ dwf r /\ dfa_ok r /\ dstart r = dstart d /\ dfinal r = dfinal d /\
+            (forall s a t, dedge r s a t -> dedge d s a t) /\
+            forall w, daccept r w = daccept d w.
+Proof. exact elim_dead_ok. Qed.
 
 (** Union (receiver first) accepts exactly the union of the operand languages. *)
 Theorem C13_union : forall (ns : list nfa) (w : list Z), Forall nwf ns -> word_ok w ->
@@ -90,6 +105,8 @@ Print Assumptions C13_accept_dfa.
 Print Assumptions C13_clone_nfa.
 Print Assumptions C13_clone_dfa.
 Print Assumptions C13_tonfa.
+Print Assumptions C13_todfa.
+Print Assumptions C13_eliminate_dead_states.
 Print Assumptions C13_union.
 Print Assumptions C13_star.
 Print Assumptions C13_concat_refuted.
